@@ -154,6 +154,8 @@ def run_numpy(R, args):
             facts += qdom.ATOMS.facts[kk]
         R.check(f"reconstruction_within_threshold/path{k}", pre + pc + side + facts + [z3.Not(z3.And(*conj))], variables, concrete, timeout=120000)
     R.res["paths"] = k
+    if getattr(ex, "unproved_failures", 0):
+        R.res["inconclusive"].append(f"{ex.unproved_failures} path(s) admitted after an unknown feasibility query ended in an exception of the code under test")
 
 
 def run_jax(R, args):
@@ -241,6 +243,8 @@ def run_jax(R, args):
             continue
         R.check(f"{lab}/path{k}", pre + pc + side_all + [z3.Or(*dis_all)], variables, concrete, timeout=120000)
     R.res["paths"] = k
+    if getattr(ex, "unproved_failures", 0):
+        R.res["inconclusive"].append(f"{ex.unproved_failures} path(s) admitted after an unknown feasibility query ended in an exception of the code under test")
 
 
 class Symmetrise(engine.Case):
